@@ -162,6 +162,11 @@ theorem stored_monotone_step (s : St) (h : Inv s) (hc : CfgOk s.cfg) (op : Op) :
     · split
       · exact storedLe_of_eq rfl
       · exact storedLe_of_eq (getTSLoop_stored _ _ _ _)
+  | tryTS m count =>
+    simp only [step]
+    split
+    · exact storedLe_of_eq rfl
+    · exact storedLe_of_eq (getTSLoop_stored _ _ _ _)
   | update m now f =>
     simp only [step]
     split
@@ -234,7 +239,7 @@ theorem grant_obs_ok (s : St) (h : Inv s) (hc : CfgOk s.cfg) (op : Op) (hf : op.
     C02.grantOk (obsOf (step s op)) := by
   intro ms hms
   have h1 := inv_step s h hc op hf
-  rcases step_obs s op with ⟨m, count, p, l, rfl, hout, hgr, _, _, hst⟩ | ⟨hnot, _⟩
+  rcases step_obs s op with ⟨m, count, p, l, _, hout, hgr, _, _, hst⟩ | ⟨hnot, _⟩
   · simp only [obsOf, hout, Option.some.injEq] at hms
     subst hms
     obtain ⟨_, _, _, B, hB, hlt⟩ := h1.gr.g ⟨m, msOf p, l - count, l, p, s.stored⟩ (by rw [hgr]; exact List.mem_cons_self ..)
